@@ -1,2 +1,2 @@
-CONSTANTS Files = {"a", "b", "c"} Variants = {1, 2} MaxLen = 4 Deviation = "none"
+CONSTANTS Files = {"a", "b", "c"} Variants = {1, 2, 4} MaxLen = 4 Deviation = "none"
 SPECIFICATION Spec
